@@ -191,22 +191,27 @@ def run_N23(chk):
     cfg = CFG(gn)
     mode = g.params[2]
 
-    def mode_test(t, lit):
-        return isinstance(t, ast.Compare) and len(t.ops) == 1 and isinstance(t.ops[0], ast.Eq) and A.text(t.left) == mode \
-            and isinstance(t.comparators[0], ast.Constant) and t.comparators[0].value == lit
-    tests = [n for n in ast.walk(gn) if isinstance(n, ast.If) and (mode_test(n.test, "meta") or mode_test(n.test, "hard"))]
-    chk.require(len(tests) == 2, "fuse_legs: mode dispatch not found")
+    # Decided on the CFG specialised on the value of `mode` (after the defaults were applied): for 'meta' and 'hard' every computing
+    # return is dominated by the mode-independent validation of axes; for any other value every path ends in `raise`.
     val = [n for n in A.walk_local(gn) if isinstance(n, ast.Expr) and isinstance(n.value, ast.Call) and A.call_name(n.value) == "_test_axes_all"]
     empt = [n for n in A.walk_local(gn) if isinstance(n, ast.If) and any(isinstance(x, ast.Raise) for x in n.body)
             and any(isinstance(x, ast.Call) and A.call_name(x) == "len" for x in ast.walk(n.test))]
-    for t in tests:
-        ok = val and empt and cfg.must_pass([t.test], [val[0]]) and cfg.must_pass([t.test], [empt[0].test])
-        chk.verdict("N3", (g, t), t.test, True if ok else False,
-                    f"fuse_legs: the `{A.text(t.test)}` branch is reachable without the mode-independent validation of axes")
-    # an unrecognised mode raises: on the CFG, every path on which both mode tests fail ends in raise
-    last = gn.body[-1]
-    ok_raise = isinstance(last, ast.Raise) or (isinstance(last, ast.If) and last.orelse and isinstance(last.orelse[-1], ast.Raise))
-    chk.verdict("N2", (g, last), "unknown mode raises", True if ok_raise else False,
+    chk.require(val and empt, "fuse_legs: validation of axes (_test_axes_all, empty-group guard) not found")
+    # statements that may rebind `mode` (defaults from the config) come first; the specialisation applies to the tests after them
+    rets = [n_.ast for n_ in cfg.nodes if isinstance(n_.ast, ast.Return) and n_.ast.value is not None]
+    for lit in ("meta", "hard"):
+        g_ = cfg.specialised({mode: lit})
+        live = g_.reach_from({g_.entry.id})
+        lr = [r for r in rets if cfg.node_of[r].id in live]
+        ok = bool(lr) and all(g_.must_pass([r], [val[0]]) and g_.must_pass([r], [empt[0].test]) for r in lr)
+        chk.verdict("N3", (g, lr[0] if lr else gn), f"mode == '{lit}': results are computed after the mode-independent validation of axes", True if ok else False,
+                    f"fuse_legs: with mode='{lit}' a result is reachable without the mode-independent validation of axes")
+    g_ = cfg.specialised({mode: "<anything else>"})
+    live = g_.reach_from({g_.entry.id})
+    # `mode is None` / force_fusion branches rebind mode; they are not decided by the assumption and keep both edges, so a return that is
+    # live here would be live for an unknown mode
+    lr = [r for r in rets if cfg.node_of[r].id in live]
+    chk.verdict("N2", (g, lr[0] if lr else gn), "unknown mode raises", True if not lr else False,
                 "fuse_legs: an unrecognised fusion mode does not raise")
     parent = A.enclosing_map(gn)
     uses = [n for n in ast.walk(gn) if isinstance(n, ast.Name) and n.id == mode and isinstance(n.ctx, ast.Load)]
